@@ -112,7 +112,7 @@ func (a *advSim) suffix() string {
 			return ":runner-compaction-visible"
 		}
 	}
-	return ":runner-compaction-on-but-invisible"
+	return "" // compaction was on but never changed any output: not attributable to it
 }
 
 // after: bookkeeping + agreement oracle after an op on node nd
@@ -507,17 +507,83 @@ func (a *advSim) leaderHold(nd *SimNode, release bool) (now, held []int) {
 	if len(rcs) == 0 {
 		return p, nil
 	}
-	if len(rcs) < need && !release {
+	// choose a CONSISTENT quorum: the round-changes handed over up to the quorum edge (together with those already recorded)
+	// must not hold locks on different roots, otherwise no value is justifiable (validRoundChangeForData is applied to every
+	// member). Prefer the lock with the highest prepared round; round-changes with another lock are handed over after the edge.
+	type lock struct {
+		root [32]byte
+		dr   specqbft.Round
+	}
+	var locks []lock
+	addLock := func(m *specqbft.SignedMessage) {
+		if m.Message.DataRound == 0 {
+			return
+		}
+		for i := range locks {
+			if locks[i].root == m.Message.Root {
+				if m.Message.DataRound > locks[i].dr {
+					locks[i].dr = m.Message.DataRound
+				}
+				return
+			}
+		}
+		locks = append(locks, lock{m.Message.Root, m.Message.DataRound})
+	}
+	recorded := inst.State.RoundChangeContainer.MessagesForRound(r)
+	for _, m := range recorded {
+		addLock(m)
+	}
+	for _, idx := range rcs {
+		addLock(a.wire[idx].Msg)
+	}
+	for i := 1; i < len(locks); i++ { // highest prepared round first
+		for j := i; j > 0 && locks[j].dr > locks[j-1].dr; j-- {
+			locks[j], locks[j-1] = locks[j-1], locks[j]
+		}
+	}
+	compatible := func(m *specqbft.SignedMessage, l *lock) bool {
+		return m.Message.DataRound == 0 || l == nil || m.Message.Root == l.root
+	}
+	chosen, later := rcs, []int(nil)
+	var pick *lock
+	candidates := make([]*lock, 0, len(locks)+1)
+	for i := range locks {
+		candidates = append(candidates, &locks[i])
+	}
+	if len(locks) > 1 {
+		for _, l := range candidates {
+			ok := true
+			for _, m := range recorded {
+				if !compatible(m, l) {
+					ok = false
+				}
+			}
+			var c, o []int
+			for _, idx := range rcs {
+				if compatible(a.wire[idx].Msg, l) {
+					c = append(c, idx)
+				} else {
+					o = append(o, idx)
+				}
+			}
+			if ok && (len(c) >= need || release) && len(c) > 0 {
+				chosen, later, pick = c, o, l
+				break
+			}
+		}
+	}
+	_ = pick
+	if len(chosen) < need && !release {
 		return rest, rcs
 	}
 	best := 0
-	for i, idx := range rcs {
-		if a.wire[idx].Msg.Message.DataRound > a.wire[rcs[best]].Msg.Message.DataRound {
+	for i, idx := range chosen {
+		if a.wire[idx].Msg.Message.DataRound > a.wire[chosen[best]].Msg.Message.DataRound {
 			best = i
 		}
 	}
 	var others []int
-	for i, idx := range rcs {
+	for i, idx := range chosen {
 		if i != best {
 			others = append(others, idx)
 		}
@@ -527,8 +593,9 @@ func (a *advSim) leaderHold(nd *SimNode, release bool) (now, held []int) {
 		k = len(others)
 	}
 	out := append([]int{}, others[:k]...)
-	out = append(out, rcs[best])
+	out = append(out, chosen[best])
 	out = append(out, others[k:]...)
+	out = append(out, later...)
 	return append(out, rest...), nil
 }
 
